@@ -12,7 +12,9 @@ import (
 	"crypto"
 	"errors"
 	"fmt"
+	"encoding/json"
 	"net/http"
+	"net/http/httptest"
 	"net/url"
 	"sort"
 	"strings"
@@ -290,6 +292,35 @@ func (w *c02World) canonAuthorize(resp HandleAuthorizeRequestResponseObject, err
 	return fmt.Sprintf("302 state=%s nonce=%s owner=%s", name, w.nonceName(u.Query().Get("nonce")), owner)
 }
 
+// canonAuthorizeHTTP: the same canonical line from the HTTP answer (302 to the next leg, 302 back to the client with error
+// parameters when the error carries a redirect URI, JSON error otherwise)
+func (w *c02World) canonAuthorizeHTTP(status int, location string, body []byte) string {
+	if status == http.StatusFound {
+		u, err := url.Parse(location)
+		if err != nil {
+			return "unparsable-redirect"
+		}
+		if code := u.Query().Get("error"); code != "" {
+			back := *u
+			back.RawQuery = ""
+			return w.canonAuthorize(nil, oauth.OAuth2Error{Code: oauth.ErrorCode(code), Description: u.Query().Get("error_description"), RedirectURI: &back})
+		}
+		return w.canonAuthorize(HandleAuthorizeRequest302Response{Headers: HandleAuthorizeRequest302ResponseHeaders{Location: location}}, nil)
+	}
+	var e struct {
+		Error       string `json:"error"`
+		Description string `json:"error_description"`
+	}
+	if err := json.Unmarshal(body, &e); err != nil || e.Error == "" {
+		b := string(body)
+		if len(b) > 80 {
+			b = b[:80]
+		}
+		return fmt.Sprintf("http-%d:%s", status, b)
+	}
+	return w.canonAuthorize(nil, oauth.OAuth2Error{Code: oauth.ErrorCode(e.Error), Description: e.Description})
+}
+
 func (w *c02World) execAuthz(op *c02Op) string {
 	if op.Q == nil {
 		return "bad-authz-op"
@@ -326,6 +357,14 @@ func (w *c02World) execAuthz(op *c02Op) string {
 	ctx := context.WithValue(context.Background(), httpRequestContextKey{}, &http.Request{URL: u, Header: http.Header{}})
 	op.T = w.nowNs()
 	res := c02Recover(func() string {
+		if op.HTTP {
+			// through the real route: echo binding of {subjectID}, strictMiddleware (the *http.Request in the context), error writer
+			req := httptest.NewRequest(http.MethodGet, "/oauth2/"+url.PathEscape(op.Subject)+"/authorize?"+q.Encode(), nil)
+			req.Header.Set("Accept", "application/json")
+			rec := httptest.NewRecorder()
+			w.echo.ServeHTTP(rec, req)
+			return w.canonAuthorizeHTTP(rec.Code, rec.Header().Get("Location"), rec.Body.Bytes())
+		}
 		return w.canonAuthorize(w.w.HandleAuthorizeRequest(ctx, HandleAuthorizeRequestRequestObject{SubjectID: op.Subject}))
 	})
 	return "calls=[" + strings.Join(w.jarCalls, " ") + "] " + res
@@ -527,4 +566,5 @@ func (g *c02Gen) toAuthz(op *c02Op, defects []string) {
 	op.Configs = append(op.Configs, cfg)
 	op.Tokens = []c02JarToken{tok}
 	op.Q = q
+	op.HTTP = rng.Intn(4) == 0
 }
